@@ -36,7 +36,20 @@ NF = [["TemplateNotFound"]]
 # ---------------------------------------------------------------------------
 # atoms <-> text
 # ---------------------------------------------------------------------------
-WORDMAP = {"ue": "é"}          # word atoms that stand for non-ASCII text
+# word atoms that stand for non-ASCII text.  The "c*" atoms are compatibility look-alikes of the
+# characters the mechanism distinguishes: in the specification they are ordinary name characters (a
+# segment made of them is a file name that does not exist), whatever Unicode folding would make of them.
+WORDMAP = {"ue": "\u00e9",
+           "cdot": "\uff0e",      # FULLWIDTH FULL STOP
+           "cdot1": "\u2024",     # ONE DOT LEADER
+           "c2dot": "\u2025",     # TWO DOT LEADER
+           "csdot": "\ufe52",     # SMALL FULL STOP
+           "cslash": "\uff0f",    # FULLWIDTH SOLIDUS
+           "cbslash": "\uff3c",   # FULLWIDTH REVERSE SOLIDUS
+           "ca": "\uff41",        # FULLWIDTH LATIN SMALL LETTER A
+           "csub": "\uff53\uff55\uff42"}   # fullwidth "sub"
+CONFUSABLE_FRAGS = [["c2dot"], ["cdot", "cdot"], ["cdot1", "cdot1"], [".", "cdot1"], ["csdot", "csdot"],
+                    [".", ".", "cslash", "a"], [".", ".", "cbslash", "a"], ["ca"], ["csub"]]
 
 
 def text(atoms):
@@ -370,6 +383,7 @@ def check_controls(ck, ctl):
                                       f"the model (tree, alphabet or invariant) is vacuous")
 
 
+CONF_FRAGS = lambda tree: [[], [".", "."], ["a"], ["sub"]] + CONFUSABLE_FRAGS  # noqa: E731
 CTL_FRAGS = lambda tree: [[], [".", "."], ["a"], ["sub"], BSX, ["\\"], tree.abs_frag]  # noqa: E731
 
 
@@ -386,7 +400,14 @@ def fs_tlc(ck, tree):
     return r0, r, maxsegs
 
 
-def part_fs(ck, tree, res):
+def conf_tlc(ck, tree):
+    """names built from Unicode look-alikes of '.', '..', '/', '\\' and of plain file names"""
+    return run_loaders_tlc("confusable", tree.files, tree.loaders, CONF_FRAGS(tree), 3,
+                           last=None if ck.tier != "quick" else [["a"], [".", "."], ["c2dot"], ["ca"]],
+                           workers=4 if ck.tier == "quick" else 8)
+
+
+def part_fs(ck, tree, res, rconf):
     r0, r, maxsegs = res
     t1 = time.time()
     ck.add_tlc(r0, "Loaders: <= 2 segments, POSIX + Windows, 4 switch settings (liveness, coverage)")
@@ -398,7 +419,10 @@ def part_fs(ck, tree, res):
     main = behaviours(r)
     if not main:
         raise core.MachineryError("Loaders.tla printed no behaviours")
-    lines = {k: b for k, b in list(ctl.items()) + list(main.items()) if k[0] == "/" and all(k[1])}
+    ck.add_tlc(rconf, "Loaders: names over Unicode look-alikes of '.', '..', '/', '\\' and of file names, <= 3 segments")
+    conf = behaviours(rconf)
+    ck.extra["confusable_names"] = len(conf)
+    lines = {k: b for k, b in list(ctl.items()) + list(main.items()) + list(conf.items()) if k[0] == "/" and all(k[1])}
     ck.extra["windows_behaviours_model_only"] = sum(1 for k in main if k[0] != "/")
     # Environment.get_template for every name that resolves and for the short rejected ones
     n = replay_fs_lines(ck, tree, lines, lambda b: b["o"] != NF or len(b["n"]) <= 6)
@@ -423,7 +447,7 @@ def zip_setup():
     files = [base + W(*e.split("/")) for e in entries]
     root = base + W("t_pack", "templates")
     frags = [[], ["."], [".", "."], ["test.html"], ["foo"], ["__init__.py"], ["t_pack"], ["templates"],
-             [".", ".", "\\", "foo"]]
+             [".", ".", "\\", "foo"], ["c2dot"], ["cdot", "cdot"], [".", ".", "cslash", "__init__.py"]]
     return z, base, files, data, {"zip": {"dirs": [root], "norm": True}}, frags
 
 
@@ -472,9 +496,14 @@ def part_zip(ck, zs, res):
 # ---------------------------------------------------------------------------
 LEAF_HAS = {
     "A": [["a"], ["b"], ["q", "/", "a"], ["p", "/", "a"], ["q", ":", "a"]],
-    "B": [["a"], ["q", "/", "a"], ["p", ":", "a"], ["q", ":", "b"], ["p", "/", "q", "/", "a"]],
-    "C": [["b"], ["q", "/", "b"], ["p", ":", "q", ":", "a"], ["a", ":", "a"], ["q", ":", "a"], ["a", "/", "b"]],
+    "B": [["a"], ["q", "/", "a"], ["p", ":", "a"], ["q", ":", "b"], ["p", "/", "q", "/", "a"], [">", "a"]],
+    "C": [["b"], ["q", "/", "b"], ["p", ":", "q", ":", "a"], ["a", ":", "a"], ["q", ":", "a"], ["a", "/", "b"],
+          [":", "a"], [":", "b"]],
 }
+
+
+DELIMS = [["/"], [":"], [":", ":"], ["-", ">"]]            # PrefixLoader delimiters (sequences of atoms)
+DELIMS_THOROUGH = DELIMS + [["_", "_"], ["/", "/"]]
 
 
 def compose_names(quick=False):
@@ -491,7 +520,20 @@ def compose_names(quick=False):
                     for w3 in ("a" if quick else "ab"):
                         if not quick or w2 != "p":
                             names.append([w1, d1, w2, d2, w3])
-    return names
+    # multi-character delimiters: one and two levels, and near misses (half a delimiter, one atom more)
+    multi = [d for d in (DELIMS if quick else DELIMS_THOROUGH) if len(d) > 1]
+    for d in multi:
+        for w1 in "pq":
+            for w2 in "ab":
+                names.append([w1] + d + [w2])
+        names += [["p"] + d + ["q"] + d + ["a"], ["p"] + d + ["q", "/", "a"], ["p"] + d[:1] + ["a"], ["p"] + d + d[:1] + ["a"],
+                  ["p"] + d, d + ["a"], ["p"] + d + d + ["a"]]
+    names += [["p", ":", ":", "q", "-", ">", "a"], ["p", "-", ">", "q", ":", ":", "a"]]
+    out = []
+    for n in names:
+        if n not in out:
+            out.append(n)
+    return out
 
 
 def leaf(i):
@@ -503,7 +545,7 @@ def depth1():
     for n in (1, 2, 3):
         for perm in itertools.permutations("ABC", n):
             out.append({"k": "choice", "subs": [leaf(x) for x in perm]})
-    for d in "/:":
+    for d in DELIMS:
         for p in (None, "A", "B", "C"):
             for q in (None, "A", "B", "C"):
                 keys, subs = [], []
@@ -525,7 +567,7 @@ def random_comp(rnd, d1):
     if rnd.random() < 0.5:
         return {"k": "choice", "subs": [child() for _ in range(rnd.choice((1, 2, 2, 3)))]}
     keys = rnd.sample([["p"], ["q"], ["a"]], rnd.choice((1, 2, 2, 3)))
-    return {"k": "prefix", "delim": rnd.choice("/:"), "keys": keys, "subs": [child() for _ in keys]}
+    return {"k": "prefix", "delim": rnd.choice(DELIMS_THOROUGH if rnd.random() < 0.25 else DELIMS), "keys": keys, "subs": [child() for _ in keys]}
 
 
 def compose_mc(comps, names):
@@ -595,7 +637,7 @@ class LeafKit:
             return self.leaf(kind, t["id"])
         if t["k"] == "choice":
             return ChoiceLoader([self.build(kind, s) for s in t["subs"]])
-        return PrefixLoader({text(k): self.build(kind, s) for k, s in zip(t["keys"], t["subs"])}, delimiter=t["delim"])
+        return PrefixLoader({text(k): self.build(kind, s) for k, s in zip(t["keys"], t["subs"])}, delimiter=text(t["delim"]))
 
     def close(self):
         shutil.rmtree(self.root, ignore_errors=True)
@@ -606,7 +648,7 @@ def show_comp(t):
         return t["id"]
     if t["k"] == "choice":
         return "Choice[" + ", ".join(show_comp(s) for s in t["subs"]) + "]"
-    return "Prefix" + repr(t["delim"]) + "{" + ", ".join(
+    return "Prefix" + repr(text(t["delim"])) + "{" + ", ".join(
         f"{text(k)}: {show_comp(s)}" for k, s in zip(t["keys"], t["subs"])) + "}"
 
 
@@ -723,14 +765,15 @@ def run(ck0):
         parts = set(os.environ.get("JV_C28_PARTS", "fs,zip,compose").split(","))  # development aid
         t0 = time.time()
         # the independent TLC runs go side by side (each with a share of the cores)
-        with ThreadPoolExecutor(3) as ex:
+        with ThreadPoolExecutor(4) as ex:
             f_fs = ex.submit(fs_tlc, ck, tree) if "fs" in parts else None
             f_zip = ex.submit(zip_tlc, ck, zs) if "zip" in parts else None
             f_co = ex.submit(compose_tlc, ck, inp) if "compose" in parts else None
-            res = [f.result() if f else None for f in (f_fs, f_zip, f_co)]
+            f_cf = ex.submit(conf_tlc, ck, tree) if "fs" in parts else None
+            res = [f.result() if f else None for f in (f_fs, f_zip, f_co, f_cf)]
         ck.extra.setdefault("phase_s", {})["tlc_all"] = round(time.time() - t0, 1)
         if res[0]:
-            part_fs(ck, tree, res[0])
+            part_fs(ck, tree, res[0], res[3])
         if res[1]:
             part_zip(ck, zs, res[1])
         if res[2]:
@@ -747,7 +790,6 @@ def run(ck0):
         "target is not fixed by the property)",
         "names containing NUL or characters the file system cannot store",
         "namespace packages and single-module packages for PackageLoader",
-        "multi-character PrefixLoader delimiters",
         "FileSystemLoader leaves inside compositions are only replayed on names they do not normalise "
         "('/a', 'a/' mean 'a' to them but not to exact-match leaves)",
     ]
